@@ -1,6 +1,8 @@
 package storesim
 
 import (
+	"os"
+	"strings"
 	"context"
 	"fmt"
 	"io"
@@ -83,7 +85,11 @@ func RunCluster(t *testing.T, c *ClusterCase, done func(*Result)) {
 	simos.Install(w)
 	r := &clusterRunner{c: c, w: w, res: res, corpus: model.NewCorpus(), layouts: map[string]bool{}}
 	cfg := verifsim.Config{Seed: c.Seed, PSync: c.Knobs.PSync, PStmt: c.Knobs.PStmt, Schedule: c.Schedule, MaxSteps: 1500000, IdleLimit: 5000 * time.Hour}
+	cfg.TraceSched = os.Getenv("VERIF_TRACE_SCHED") != ""
 	cfg.OnEnd = func(s *verifsim.Sim) {
+		if f := os.Getenv("VERIF_TRACE_SCHED"); f != "" {
+			os.WriteFile(f, []byte(strings.Join(s.SchedTrace(), "\n")), 0o644)
+		}
 		res.Steps, res.Switches, res.SimMs = s.Steps(), s.Switches(), s.SimElapsed().Milliseconds()
 		res.Hash = fmt.Sprintf("%016x", s.InterleavingHash())
 		res.Digest = res.Hash
